@@ -87,7 +87,7 @@ fn run_case(g: &mut Gen, w: &mut World) -> Outcome {
     let mut model = Model::new(w);
     let n_hist = 1 + g.weighted(&[6, 5, 4, 3, 3, 2, 2, 1, 1, 1, 1, 1]);
     let warm = new_modules();
-    let hist_diag = Diag::from_index(2 + 4 * g.index(2) + 8 * g.index(3)); // never the kernel trace (cost)
+    let hist_diag = Diag::from_index(2 * g.index(2) + 8 * g.index(3)); // kernel trace and debug information only on the probe (cost)
     let mut steps: Vec<Step> = Vec::new();
     let opts = Opts::history();
     let mut wasm_runs = 0u64;
@@ -127,7 +127,6 @@ fn run_case(g: &mut Gen, w: &mut World) -> Outcome {
     }
     g.count("history transactions", steps.len() as u64);
     g.count("history transactions running WASM beyond the faucet", wasm_runs);
-
     // ---- the probe ----
     let plan = gen_plan(g, w, &model, &Opts { fail_pct: 25, ..Opts::history() });
     let probe_text = plan.describe(w);
@@ -162,9 +161,11 @@ fn run_case(g: &mut Gen, w: &mut World) -> Outcome {
         TransactionResult::Abort(_) => "probe: aborted",
     });
 
-    // configurations: the full cross product (24 x {cold, warm}) in one case out of eight, otherwise
-    // all-on, every single-flag toggle, and a tape-chosen sample, each on a cold or a warm cache
-    let full = g.chance(1, 8);
+    // configurations: the full cross product (24 x {cold, warm}) in one case out of sixteen; otherwise
+    // the baseline on a cold cache, every single-flag toggle, everything but debug information, four
+    // tape-chosen combinations without debug information, and one with it (debug information clones
+    // every value read, WASM code included, and costs 10-1000 plain executions)
+    let full = g.chance(1, 16);
     let mut configs: Vec<(Diag, bool)> = Vec::new();
     if full {
         g.label("full cross product of diagnostic settings x {cold, warm}");
@@ -174,13 +175,16 @@ fn run_case(g: &mut Gen, w: &mut World) -> Outcome {
         }
     } else {
         configs.push((Diag::BASE, true));
-        configs.push((Diag::from_index(23), g.bool()));
-        for i in [1usize, 2, 4, 8, 16] {
+        configs.push((Diag::from_index(19), g.bool()));
+        for i in [1usize, 2, 8, 16] {
             configs.push((Diag::from_index(i), g.bool()));
         }
-        for _ in 0..5 {
-            configs.push((Diag::from_index(g.index(Diag::COUNT)), g.bool()));
+        for _ in 0..4 {
+            let i = g.index(12);
+            configs.push((Diag::from_index((i & 3) | ((i >> 2) << 3)), g.bool()));
         }
+        let with_debug = if g.bool() { 4 } else { 4 | g.index(4) | (g.index(3) << 3) };
+        configs.push((Diag::from_index(with_debug), g.bool()));
     }
     let mut max_flags = 0;
     let mut compared = 0u64;
@@ -219,14 +223,13 @@ fn run_case(g: &mut Gen, w: &mut World) -> Outcome {
             );
         }
     }
-
     // ---- 8 threads at once sharing one cold VmModules ----
     {
         let shared = new_modules();
         let db = w.db();
         let exe_ref = &exe;
         let shared_ref = &shared;
-        let diags: Vec<Diag> = (0..8).map(|t| if t < 4 { Diag::BASE } else { Diag::from_index(2 * g.index(12)) }).collect();
+        let diags: Vec<Diag> = (0..8).map(|t| if t < 4 { Diag::BASE } else { Diag::from_index((g.index(2) << 1) | (g.index(3) << 3)) }).collect();
         let results: Vec<Result<Vec<(&'static str, Vec<u8>)>, String>> = std::thread::scope(|s| {
             let handles: Vec<_> = diags
                 .iter()
@@ -270,12 +273,11 @@ fn run_case(g: &mut Gen, w: &mut World) -> Outcome {
         }
     }
     g.count("probe executions compared with the baseline", compared);
-
     // ---- replay of the whole history from the snapshot ----
     let final_db = w.db().clone();
     w.reset();
     let cold = new_modules();
-    let replay_diag = Diag::from_index((hist_diag.cost_breakdown as usize ^ 1) * 2 + 4 * g.index(2) + 8 * g.index(3));
+    let replay_diag = Diag::from_index((hist_diag.cost_breakdown as usize ^ 1) * 2 + 8 * ((hist_diag.execution_trace as usize + 1 + g.index(2)) % 3));
     for (i, s) in steps.iter().enumerate() {
         let receipt = match exec(w.db(), &cold, &replay_diag.config(), &s.exe) {
             Ok(r) => r,
@@ -310,7 +312,6 @@ fn run_case(g: &mut Gen, w: &mut World) -> Outcome {
             ),
         );
     }
-
     let committed = matches!(base.result, TransactionResult::Commit(_));
     g.set_nontrivial(committed && touched >= 5 && max_flags >= 2);
     if touched >= 20 {
@@ -328,7 +329,7 @@ pub fn check() -> Check {
     Check::new(
         "C01",
         "Transaction execution is deterministic",
-        "A history of 1-12 generated transactions (typed manifest generator over the standard world: fungible / XRD / non-fungible transfers through every deposit style, mint / burn with and without the badge proof, NF mints incl. RUID ids, NF data updates, faucet free / lock_fee (WASM), calls of published WAT packages and publishing new ones, puppet scripts creating many nodes / KV entries in tape-chosen key order / events / logs / component state writes incl. a royalty-charging component, deliberate failures of 14 kinds, fees from the faucet or 1-3 account vaults incl. contingent locks, too-small and missing fee locks) is committed; then a generated probe is executed without committing under a baseline (no diagnostics, warm code cache) and under 12 (one case in eight: all 48) combinations of {kernel trace, cost breakdown, execution trace None/Some(1)/Some(MAX), debug information} x {cold VmModules created for that execution, warm VmModules that executed the history}, and twice on each of 8 threads sharing one cold VmModules. Every comparable receipt part (result kind, outcome, state updates, events, logs, fee summary, fee source, fee destination, new entities, costing parameters, nullifications) must be byte-identical (SBOR) to the baseline. The whole history is then replayed from the snapshot on a cold cache under other diagnostic settings: every receipt part and the final database (all partitions / substates) must be identical. Non-trivial = the probe commits, its state updates name >= 5 substates and some compared configuration differs from the baseline in at least two of {the four flags, cache state}. Distinct = distinct decoded choice sequences.",
+        "A history of 1-12 generated transactions (typed manifest generator over the standard world: fungible / XRD / non-fungible transfers through every deposit style, mint / burn with and without the badge proof, NF mints incl. RUID ids, NF data updates, faucet free / lock_fee (WASM), calls of published WAT packages and publishing new ones, puppet scripts creating many nodes / KV entries in tape-chosen key order / events / logs / component state writes incl. a royalty-charging component, deliberate failures of 14 kinds, fees from the faucet or 1-3 account vaults incl. contingent locks, too-small and missing fee locks) is committed; then a generated probe is executed without committing under a baseline (no diagnostics, warm code cache) and under 11 (one case in sixteen: all 48) combinations of {kernel trace, cost breakdown, execution trace None/Some(1)/Some(MAX), debug information} x {cold VmModules created for that execution, warm VmModules that executed the history}, and twice on each of 8 threads sharing one cold VmModules. Every comparable receipt part (result kind, outcome, state updates, events, logs, fee summary, fee source, fee destination, new entities, costing parameters, nullifications) must be byte-identical (SBOR) to the baseline. The whole history is then replayed from the snapshot on a cold cache under other diagnostic settings: every receipt part and the final database (all partitions / substates) must be identical. Non-trivial = the probe commits, its state updates name >= 5 substates and some compared configuration differs from the baseline in at least two of {the four flags, cache state}. Distinct = distinct decoded choice sequences.",
     )
     .assume("thread interleavings are sampled by stress (8 threads x 2 executions sharing one cold code cache per case), not enumerated")
     .assume("'any process' is covered only in so far as every case runs on one of 16 worker threads with its own world and fresh VmModules (per-instance hash seeds differ); the child-process mode of DESIGN (T only) is not implemented")
